@@ -77,6 +77,7 @@ structure UInv (u : Un Rat) (insG LG : List E) (tot : Rat) (cnt : Nat) : Prop wh
   kEq : u.gadget.k = u.maxK
   n_eq : u.n = cnt
   tot_eq : sumW insG = tot
+  nz : insG ≠ [] → 1 ≤ cnt
 
 theorem mergeItems_spec (u : Un Rat) (insG LG : List E) (tot : Rat) (cnt : Nat) (hu : UInv u insG LG tot cnt)
     (sk : Sk Rat) (ins L : List E) (hsk : Inv sk ins L) (ds : Draws Rat) :
@@ -87,7 +88,7 @@ theorem mergeItems_spec (u : Un Rat) (insG LG : List E) (tot : Rat) (cnt : Nat) 
   · have : ins = [] := List.eq_nil_of_length_eq_zero (by rw [← hsk.n_eq]; exact hn)
     subst this
     simp only [hn, beq_self_eq_true, if_true]
-    exact ⟨u, ds, insG, LG, rfl, ⟨hu.ginv, hu.isGadget, hu.kEq, by simp [hu.n_eq], by simp [sumW, hu.tot_eq]⟩, rfl, rfl, rfl⟩
+    exact ⟨u, ds, insG, LG, rfl, ⟨hu.ginv, hu.isGadget, hu.kEq, by simp [hu.n_eq], by simp [sumW, hu.tot_eq], fun h => by have := hu.nz h; omega⟩, rfl, rfl, rfl⟩
   · simp only [hn, beq_iff_eq, if_false]
     -- H region, unmarked
     have hposH : ∀ p ∈ sk.H.map (fun e => (e.item, e.wt)), 0 < p.2 := by
@@ -103,7 +104,7 @@ theorem mergeItems_spec (u : Un Rat) (insG LG : List E) (tot : Rat) (cnt : Nat) 
       have hrs : sk.rSamplesCorrected = [] := by simp [Sk.rSamplesCorrected, hr]
       rw [hrs]
       simp only [feed]
-      refine ⟨_, ds1, _, L1, rfl, ⟨hinv1, by rw [hg1]; exact hu.isGadget, by rw [hk1]; exact hu.kEq, by simp [hu.n_eq], ?_⟩, rfl, rfl, rfl⟩
+      refine ⟨_, ds1, _, L1, rfl, ⟨hinv1, by rw [hg1]; exact hu.isGadget, by rw [hk1]; exact hu.kEq, by simp [hu.n_eq], ?_, fun _ => by omega⟩, rfl, rfl, rfl⟩
       rw [sumW_append, sumW_entriesOf, totalW_map_H, hu.tot_eq, ← hsk.weight.1 hr]; ring
     · have he := hsk.est hr
       have hLne : L ≠ [] := by intro h; have := he.rLen; rw [h] at this; simp at this
@@ -115,7 +116,7 @@ theorem mergeItems_spec (u : Un Rat) (insG LG : List E) (tot : Rat) (cnt : Nat) 
         feed_spec true sk.rSamplesCorrected g1 _ L1 ds1 hinv1 hposR (fun _ => by rw [hg1]; exact hu.isGadget)
       rw [hf2]
       refine ⟨_, ds2, _, L2, rfl, ⟨hinv2, by rw [hg2, hg1]; exact hu.isGadget, by rw [hk2, hk1]; exact hu.kEq,
-        by simp [hu.n_eq], ?_⟩, rfl, rfl, rfl⟩
+        by simp [hu.n_eq], ?_, fun _ => by omega⟩, rfl, rfl, rfl⟩
       rw [sumW_append, sumW_entriesOf, htotR, sumW_append, sumW_entriesOf, totalW_map_H, hu.tot_eq, ← hsk.weight.2 hr]; ring
 
 theorem resolveTau_gadget (u : Un Rat) (sk : Sk Rat) :
@@ -133,7 +134,7 @@ theorem unUpdate_spec (u : Un Rat) (insG LG : List E) (tot : Rat) (cnt : Nat) (h
   obtain ⟨h1, h2, h3⟩ := resolveTau_gadget u1 sk
   refine ⟨resolveTau u1 sk, ds1, insG', LG', by simp [Un.update, hm], ?_, by rw [h3, hmk]⟩
   exact ⟨by rw [h1]; exact hinv.ginv, by rw [h1]; exact hinv.isGadget, by rw [h1, h3]; exact hinv.kEq,
-    by rw [h2]; exact hinv.n_eq, hinv.tot_eq⟩
+    by rw [h2]; exact hinv.n_eq, hinv.tot_eq, hinv.nz⟩
 
 /-- `update` with each sketch of a list, in order -/
 def unionAll : Un Rat → List (Sk Rat) → Draws Rat → Option (Un Rat × Draws Rat)
@@ -151,7 +152,7 @@ theorem newUnion_inv (T : Tunables) (maxK : Nat) (u0 : Un Rat) (h : Un.new T max
     injection h with h
     subst h
     obtain ⟨hinv, hk, hgg, _⟩ := new_inv T maxK T.defaultRf true g hg
-    exact ⟨⟨hinv, hgg, hk, rfl, rfl⟩, rfl⟩
+    exact ⟨⟨hinv, hgg, hk, rfl, rfl, fun h => absurd rfl h⟩, rfl⟩
   · exact absurd h (by simp)
 
 end DS.VarOpt
